@@ -1,7 +1,6 @@
 package remoting
 
 import (
-	"bufio"
 	"encoding/binary"
 	"errors"
 	"fmt"
@@ -87,8 +86,8 @@ func (c *tcpConnectionActor) onLaunch(ctx vivid.ActorContext) {
 }
 
 func (c *tcpConnectionActor) onReadConn(ctx vivid.ActorContext) (fatal bool, err error) {
-	// 消息读取
-	reader := bufio.NewReader(c.conn)
+	// 消息读取：每帧都必须直接从连接按帧长精确读取，不可使用带预读缓冲的临时 Reader（其多读的后续帧字节会随本次调用结束而丢失）
+	reader := c.conn
 	lengthBuf := make([]byte, 4)
 	if _, err = io.ReadFull(reader, lengthBuf); err != nil {
 		// 对等连接已关闭
